@@ -530,6 +530,7 @@ func (e *Exec) doRevert(op Op) {
 	e.hist.ResetTo(target)
 	e.lb = e.hist.N()
 	e.drained = true
+	e.fs.MarkOp("round", e.lb, true) // SnapshotRevert always syncs
 	e.probe("revert-done")
 	if op.Flag {
 		e.closeStore()
